@@ -1,6 +1,7 @@
 """C10 - No needless serialisation: a later stage only when something forces it."""
 from .. import anchors as A
 from .. import placement as P
+from .. import shared as S
 
 PROP = "C10"
 EXPLANATION = (
@@ -9,10 +10,11 @@ EXPLANATION = (
     "accepted, one with a single conflicting group is rejected only by the capacity guard or improves_balance; (EXACT) the predicate "
     "tests nothing beyond W/W, W/R, R/W (read/read never conflicts); (DEPCOVER) the ranges of stages whose ids are crossed off the "
     "pending dependency list chain from 0 up to the scanned range; (ALLOCC) crossing off removes every equal entry; (WIDTH) "
-    "max_threads is the maximum over all stages of the group count. Optimality of the balance heuristic is not decided.")
+    "max_threads is the maximum over all stages of the group count; (PLACE) stages and groups come into being only in add_stage / add_group as called by insert "
+    "after its search (nothing else in the crate changes the shape of the plan tables), so no stage exists that the search did not ask for. Optimality of the balance heuristic is not decided.")
 ASSUMPTIONS = ["Iterator::find returns the first match; SmallVec::retain removes all non-matching entries"]
 TRUSTED = ["rustc nightly MIR construction", "shred-facts driver", "shredlint analyses"]
-TECHNIQUE = 'static: structured evaluation of insertion_target / find_conflict / remove_ids / max_threads (interprocedural path tabulation with loop objects and std-combinator models): scan order and exits, accept table, exactness of the conflict matrix, range chaining of dependency cross-off (DEPCOVER), every-equal-entry removal (ALLOCC), running maximum (WIDTH)'
+TECHNIQUE = 'static: structured evaluation of insertion_target / find_conflict / remove_ids / max_threads (interprocedural path tabulation with loop objects and std-combinator models): scan order and exits, accept table, exactness of the conflict matrix, range chaining of dependency cross-off (DEPCOVER), every-equal-entry removal (ALLOCC), running maximum (WIDTH), who-may-change-the-shape inventory of the plan tables (PLACE)'
 RULE_TEXT = "one obligation per chain link, accept-table row, predicate pair, cross-off range and idiom, width computation"
 
 
@@ -24,6 +26,8 @@ def rules(ctx, report, facts, config, pfx="C10"):
     report.guard(pfx + ".DEPCOVER", P.depcover, ctx, report, pfx + ".DEPCOVER", facts, config)
     report.guard(pfx + ".ALLOCC", P.crossoff, ctx, report, pfx + ".ALLOCC", facts, config, ("all-occurrences",))
     report.guard(pfx + ".DEPGATE", P.depgate, ctx, report, pfx + ".DEPGATE", facts, config)
+    # a stage or a group that comes into being anywhere but in the constructors insert calls after its search was forced by nothing
+    report.guard(pfx + ".PLACE", S.lockstep, ctx, report, pfx + ".PLACE", facts, config)
     if ctx.parallel(config):
         report.guard(pfx + ".WIDTH", P.width, ctx, report, pfx + ".WIDTH", facts, config)
 
